@@ -407,6 +407,22 @@ func (tb *TB) extract(x *ssa.Extract, env *Env) *Term {
 	return &Term{Op: fmt.Sprintf("res%d", x.Index), Args: []*Term{leaf(fmt.Sprintf("?%T", x.Tuple), x.Tuple)}, Val: x}
 }
 
+// EnvOfCall binds the parameters of the static callee of call to the terms of the call's arguments.
+func (tb *TB) EnvOfCall(call *ssa.Call, env *Env) *Env {
+	fn := Callee(call).Static
+	if fn == nil || call.Call.IsInvoke() {
+		return nil
+	}
+	ne := &Env{params: map[*ssa.Parameter]*Term{}}
+	args := tb.terms(call.Call.Args, env)
+	for i, p := range fn.Params {
+		if i < len(args) {
+			ne.params[p] = args[i]
+		}
+	}
+	return ne
+}
+
 // guardedComponent: `v, ok := helper()` (or `v, err := helper()`) where the helper is inlinable, returns a
 // default on its not-ok paths, and every use of v sits under ok == true (err == nil): the term of v is
 // the term of the helper's ok-returns only. Returns nil when the pattern does not apply.
